@@ -7,9 +7,11 @@
    iteration order (of the entry list given to Kahn's algorithm, of the name-sorted edge list that fixes the order of
    children).  [isc] is `type(node) is Concat`; [nm v] is the (arbitrary, fresh) identity of the Concat inserted in front
    of [v].  [wf V E]: both ends of every edge are listed in V. *)
-From Coq Require Import List Arith Lia Bool Permutation.
-From RV Require Import model.Graph proofs.Graph_proofs proofs.Graph_ops_proofs.
+From Coq Require Import List Arith Lia Bool Permutation QArith.
+From RV Require Import base.Num model.Graph proofs.Graph_proofs proofs.Graph_ops_proofs proofs.Graph_assoc_proofs.
+From RV Require model.ModelSem proofs.ModelSem_proofs proofs.Graph_exec_proofs.
 Import ListNotations.
+Close Scope Q_scope.
 
 (* ---- execution order = a valid topological order (graphflow.topological_sort) -------------------------------- *)
 Theorem C03_kahn_sound (V : list node) (E : list edge) (ents l : list node) :
@@ -191,24 +193,51 @@ Theorem C03_merge_idem isc nm (m : model) :
   (forall e, In e (snd (cmi isc nm (fst G) (snd G))) <-> In e E).
 Proof. exact (merge_idem isc nm m). Qed.
 
-(* chaining: (a >> b) >> c  vs  a >> (b >> c).  General statement (NOT proved here): *)
-Definition C03_chain_assoc_full_statement : Prop :=
-  forall isc nm1 nm2 nm3 nm4 (a b c : value) (m1 m2 m3 m4 : model),
-    (forall x, In x (v_nodes a) -> ~ In x (v_nodes b) /\ ~ In x (v_nodes c)) ->
-    (forall x, In x (v_nodes b) -> ~ In x (v_nodes c)) ->
-    (forall nm V, In (nm, V) [(nm1, fst (link_graph [a] [b])); (nm2, fst (link_graph [VModel m1] [c]));
-                             (nm3, fst (link_graph [b] [c])); (nm4, fst (link_graph [a] [VModel m3]))] ->
-       (forall v, In v V -> ~ In (nm v) V /\ isc (nm v) = true) /\ (forall u v, In u V -> In v V -> nm u = nm v -> u = v)) ->
-    link isc nm1 [a] [b] = Ok m1 -> link isc nm2 [VModel m1] [c] = Ok m2 ->
-    link isc nm3 [b] [c] = Ok m3 -> link isc nm4 [a] [VModel m3] = Ok m4 ->
-    exists rho : node -> node,
-      (forall p, In p (v_nodes a ++ v_nodes b ++ v_nodes c) -> rho p = p) /\
-      (forall x, In x (mNodes m4) <-> exists y, In y (mNodes m2) /\ x = rho y) /\
-      (forall p q, In (p, q) (mEdges m4) <-> exists p0 q0, In (p0, q0) (mEdges m2) /\ p = rho p0 /\ q = rho q0).
+(* chaining: (a >> b) >> c  vs  a >> (b >> c), for operands on pairwise disjoint node sets.
+   Side conditions (definitions in proofs/Graph_assoc_proofs.v):
+     gvalid x      : x's edges stay inside x's nodes, and its declared inputs / outputs are exactly its nodes without
+                     predecessors / successors — true of every bare node and of every model returned by Model(...)
+                     (C03_operands_valid);
+     disjoint x y  : no node of x is a node of y;   nonempty l : l has an element (a has an output, b an input and an
+                     output, c an input — true of every node and every non-empty accepted model);
+     namings       : the Concats created by the two inner links (nm1 for a >> b, nm3 for b >> c) are Concat-typed new
+                     objects — not nodes of a, b or c — one per node; those created by the two outer links (nm2, nm4) are new
+                     w.r.t. everything present in that link, one per node.
+   Conclusion: a renaming [rho] of the inserted Concats, fixing every operand node, maps the nodes and the edges of
+   (a >> b) >> c  onto those of  a >> (b >> c); both have the entries of a as entries and the exits of c as exits. *)
+Theorem C03_operands_valid :
+  (forall n, gvalid (VNode n)) /\
+  (forall isc nm V E m, wf V E -> mk_model isc nm V E = Ok m -> gvalid (VModel m)).
+Proof. split; [exact gvalid_node | exact mk_model_gvalid]. Qed.
 
-(* Proved part: exhaustively for operands drawn from six shapes (node; chain; fan-out with two outputs; fan-in with an
-   inner Concat; two isolated nodes; chain + isolated node) on disjoint ids — 216 triples — with the canonical naming
-   "Concat in front of v is 1000+v", under which both sides must be literally the same sets. *)
+Theorem C03_chain_assoc (isc : node -> bool) (nm1 nm2 nm3 nm4 : node -> node) (a b c : value) (m1 m2 m3 m4 : model) :
+  gvalid a -> gvalid b -> gvalid c -> disjoint a b -> disjoint a c -> disjoint b c ->
+  nonempty (v_outs a) -> nonempty (v_ins b) -> nonempty (v_outs b) -> nonempty (v_ins c) ->
+  link isc nm1 [a] [b] = Ok m1 -> link isc nm2 [VModel m1] [c] = Ok m2 ->          (* (a >> b) >> c = m2 *)
+  link isc nm3 [b] [c] = Ok m3 -> link isc nm4 [a] [VModel m3] = Ok m4 ->          (* a >> (b >> c) = m4 *)
+  (forall v, In v (fst (link_graph [a] [b])) ->
+     ~ In (nm1 v) (v_nodes a ++ v_nodes b ++ v_nodes c) /\ isc (nm1 v) = true) ->
+  (forall u v, In u (fst (link_graph [a] [b])) -> In v (fst (link_graph [a] [b])) -> nm1 u = nm1 v -> u = v) ->
+  (forall v, In v (fst (link_graph [b] [c])) ->
+     ~ In (nm3 v) (v_nodes a ++ v_nodes b ++ v_nodes c) /\ isc (nm3 v) = true) ->
+  (forall u v, In u (fst (link_graph [b] [c])) -> In v (fst (link_graph [b] [c])) -> nm3 u = nm3 v -> u = v) ->
+  (forall v, In v (fst (link_graph [VModel m1] [c])) -> ~ In (nm2 v) (fst (link_graph [VModel m1] [c]))) ->
+  (forall u v, In u (fst (link_graph [VModel m1] [c])) -> In v (fst (link_graph [VModel m1] [c])) -> nm2 u = nm2 v -> u = v) ->
+  (forall v, In v (fst (link_graph [a] [VModel m3])) -> ~ In (nm4 v) (fst (link_graph [a] [VModel m3]))) ->
+  (forall u v, In u (fst (link_graph [a] [VModel m3])) -> In v (fst (link_graph [a] [VModel m3])) -> nm4 u = nm4 v -> u = v) ->
+  exists rho : node -> node,
+    (forall p, In p (v_nodes a ++ v_nodes b ++ v_nodes c) -> rho p = p) /\
+    (forall x, In x (mNodes m4) <-> exists y, In y (mNodes m2) /\ x = rho y) /\
+    (forall p q, In (p, q) (mEdges m4) <-> exists p0 q0, In (p0, q0) (mEdges m2) /\ p = rho p0 /\ q = rho q0) /\
+    (forall v, In v (mIn m4) <-> In v (mIn m2)) /\ (forall v, In v (mOut m4) <-> In v (mOut m2)) /\
+    (forall v, In v (mIn m2) <-> In v (v_ins a)) /\ (forall v, In v (mOut m2) <-> In v (v_outs c)).
+Proof. exact (chain_assoc isc nm1 nm2 nm3 nm4 a b c m1 m2 m3 m4). Qed.
+
+(* Not covered by C03_chain_assoc: that the two sides are accepted / rejected TOGETHER (it assumes both were built).
+   The exhaustive sweep below checks that too (same_model demands Ok/Ok or ErrCycle/ErrCycle): operands drawn from six
+   shapes (node; chain; fan-out with two outputs; fan-in with an inner Concat; two isolated nodes; chain + isolated
+   node) on disjoint ids — 216 triples — with the canonical naming "Concat in front of v is 1000+v", under which both
+   sides must be literally the same sets. *)
 Definition shapes (o : nat) : list expr :=
   [ ENode o;
     ELink [] [ENode o] [ENode (o + 1)];
@@ -220,9 +249,92 @@ Definition assoc_ok (a b c : expr) : bool :=
   let ev := eval (fun n => 1000 <=? n) 1000 in
   same_model (ev (ELink [] [ELink [] [a] [b]] [c])) (ev (ELink [] [a] [ELink [] [b] [c]])).
 
-Theorem C03_chain_assoc_partial :
+Example C03_chain_assoc_sweep :
   forallb (fun a => forallb (fun b => forallb (fun c => assoc_ok a b c) (shapes 20)) (shapes 10)) (shapes 0) = true.
 Proof. vm_compute. reflexivity. Qed.
+
+(* non-vacuity of C03_chain_assoc: a = node 0, b = the model 10 >> [11, 12] (two outputs), c = node 20; the namings are
+   "Concat in front of v is 100+v" (200+v for the outer link of a >> (b >> c), where 120 already exists).  All hypotheses hold and a Concat (120) really is inserted in front of c. *)
+Example C03_chain_assoc_example :
+  let isc := fun n => 100 <=? n in let nm := fun v => 100 + v in let nm' := fun v => 200 + v in
+  exists mb m1 m2 m3 m4,
+    mk_model isc nm [10; 11; 12] [(10, 11); (10, 12)] = Ok mb /\
+    let a := VNode 0 in let b := VModel mb in let c := VNode 20 in
+    gvalid a /\ gvalid b /\ gvalid c /\ disjoint a b /\ disjoint a c /\ disjoint b c /\
+    nonempty (v_outs a) /\ nonempty (v_ins b) /\ nonempty (v_outs b) /\ nonempty (v_ins c) /\
+    link isc nm [a] [b] = Ok m1 /\ link isc nm [VModel m1] [c] = Ok m2 /\
+    link isc nm [b] [c] = Ok m3 /\ link isc nm' [a] [VModel m3] = Ok m4 /\
+    (forall v, In v (fst (link_graph [a] [b])) -> ~ In (nm v) (v_nodes a ++ v_nodes b ++ v_nodes c) /\ isc (nm v) = true) /\
+    (forall v, In v (fst (link_graph [b] [c])) -> ~ In (nm v) (v_nodes a ++ v_nodes b ++ v_nodes c) /\ isc (nm v) = true) /\
+    (forall v, In v (fst (link_graph [VModel m1] [c])) -> ~ In (nm v) (fst (link_graph [VModel m1] [c]))) /\
+    (forall v, In v (fst (link_graph [a] [VModel m3])) -> ~ In (nm' v) (fst (link_graph [a] [VModel m3]))) /\
+    (forall u v : node, nm u = nm v -> u = v) /\ (forall u v : node, nm' u = nm' v -> u = v) /\
+    In 120 (mNodes m2) /\ In 120 (mNodes m4).
+Proof. cbv zeta. do 5 eexists. split; [vm_compute; reflexivity|].
+  split; [apply gvalid_node|]. split.
+  { apply (mk_model_gvalid (fun n => 100 <=? n) (fun v => 100 + v) [10; 11; 12] [(10, 11); (10, 12)]); [|vm_compute; reflexivity].
+    intros e He. simpl in He. intuition (subst; simpl; auto). }
+  split; [apply gvalid_node|].
+  split; [intros n Hn Hc; vm_compute in Hn, Hc; intuition lia|].
+  split; [intros n Hn Hc; vm_compute in Hn, Hc; intuition lia|].
+  split; [intros n Hn Hc; vm_compute in Hn, Hc; intuition lia|].
+  split; [exists 0; simpl; auto|]. split; [exists 10; vm_compute; auto|]. split; [exists 11; vm_compute; auto|].
+  split; [exists 20; simpl; auto|].
+  split; [vm_compute; reflexivity|]. split; [vm_compute; reflexivity|].
+  split; [vm_compute; reflexivity|]. split; [vm_compute; reflexivity|].
+  split; [intros v Hv; vm_compute in Hv; intuition (subst; try (vm_compute; reflexivity); match goal with H : In _ _ |- _ => vm_compute in H; intuition (try discriminate; try lia) end)|].
+  split; [intros v Hv; vm_compute in Hv; intuition (subst; try (vm_compute; reflexivity); match goal with H : In _ _ |- _ => vm_compute in H; intuition (try discriminate; try lia) end)|].
+  split; [intros v Hv; vm_compute in Hv; intuition (subst; try (vm_compute; reflexivity); match goal with H : In _ _ |- _ => vm_compute in H; intuition (try discriminate; try lia) end)|].
+  split; [intros v Hv; vm_compute in Hv; intuition (subst; try (vm_compute; reflexivity); match goal with H : In _ _ |- _ => vm_compute in H; intuition (try discriminate; try lia) end)|].
+  split; [intros u v; lia|]. split; [intros u v; lia|]. split; vm_compute; auto 10. Qed.
+
+(* ---- integration with the execution model of C02 ------------------------------------------------------------------
+   The order computed by topological_sort (any entry order, any edge-list order) is an order on which the execution
+   model (model/ModelSem.v) is proved to compute the unique solution of the graph equations: for every execution-model
+   [m] whose node descriptors are listed in that order and whose fan-in lists only contain predecessors in the graph,
+   ModelSem's hypothesis [well_formed m] holds. *)
+Theorem C03_order_is_executable {F : Type} `{Num F} (V : list node) (E : list edge) (ents l : list node)
+    (m : @ModelSem.model F) :
+  NoDup E -> wf V E ->
+  NoDup ents -> (forall v, In v ents <-> In v V /\ has_in v E = false) ->
+  topo ents V E = Sorted l ->
+  map (@ModelSem.nid F) (ModelSem.order m) = l ->
+  (forall n p, In p (ModelSem.parents m n) -> In (p, n) E) ->
+  ModelSem_proofs.well_formed m.
+Proof. exact (Graph_exec_proofs.kahn_order_well_formed V E ents l m). Qed.
+
+(* hence C02_forward_is_solution / C02_solution_unique apply to the order the implementation's algorithm computes *)
+Corollary C03_computed_order_executes {F : Type} `{Num F} (V : list node) (E : list edge) (ents l : list node)
+    (m : @ModelSem.model F) prev clamp ext (e0 e' : @ModelSem.env F) :
+  NoDup E -> wf V E ->
+  NoDup ents -> (forall v, In v ents <-> In v V /\ has_in v E = false) ->
+  topo ents V E = Sorted l ->
+  map (@ModelSem.nid F) (ModelSem.order m) = l ->
+  (forall n p, In p (ModelSem.parents m n) -> In (p, n) E) ->
+  ModelSem.forward m prev clamp ext e0 = (e', true) ->
+  ModelSem_proofs.is_solution m prev clamp ext e0 e' /\
+  (forall e2, ModelSem_proofs.is_solution m prev clamp ext e0 e2 -> forall n, e' n = e2 n).
+Proof. intros HE Hwf Hn He Ht Ho Hp Hf.
+  pose proof (Graph_exec_proofs.kahn_order_well_formed V E ents l m HE Hwf Hn He Ht Ho Hp) as W.
+  pose proof (ModelSem_proofs.forward_is_solution m prev clamp ext e0 e' W Hf) as S.
+  split; [exact S | intros e2 S2; exact (ModelSem_proofs.solution_unique m prev clamp ext e0 e' e2 W S S2)]. Qed.
+
+(* non-vacuity: the execution model laid out on the order computed for 0 -> {1,2}, 1 -> 2 (at F := Q) *)
+Example C03_order_is_executable_example :
+  let V := [0; 1; 2] in let E := [(0, 1); (0, 2); (1, 2)] in
+  match topo (entries V E) V E with
+  | Sorted l =>
+      l = [0; 1; 2] /\
+      let m := @ModelSem.mkModel Q (map (fun i => ModelSem.mkND i (fun _ _ _ _ => None) None 0) l) (Graph.parents E) [2] in
+      map (@ModelSem.nid Q) (ModelSem.order m) = l /\ (forall n p, In p (ModelSem.parents m n) -> In (p, n) E) /\
+      ModelSem_proofs.well_formed m
+  | _ => False
+  end.
+Proof. vm_compute topo. cbv zeta. split; [reflexivity|]. split; [reflexivity|]. split.
+  - intros n p Hp. apply parents_In. exact Hp.
+  - split; simpl.
+    + repeat constructor; simpl; intuition discriminate.
+    + repeat split; try tauto; simpl in *; intuition (try discriminate; try lia). Qed.
 
 (* ---- non-vacuity ------------------------------------------------------------------------------------------------ *)
 (* a diamond 0 -> {1,2} -> 3 given as Model(nodes, edges): Concat 100 inserted before 3; entries [0], exits [3] *)
@@ -281,4 +393,7 @@ Print Assumptions C03_fanin_twice_refuted.
 Print Assumptions C03_merge_comm.
 Print Assumptions C03_merge_comm_accept.
 Print Assumptions C03_merge_idem.
-Print Assumptions C03_chain_assoc_partial.
+Print Assumptions C03_operands_valid.
+Print Assumptions C03_chain_assoc.
+Print Assumptions C03_order_is_executable.
+Print Assumptions C03_computed_order_executes.
